@@ -341,6 +341,66 @@ fn c03(tier: &str) -> Vec<String> {
     v
 }
 
+fn c12(tier: &str) -> Vec<String> {
+    let th = tier == "thorough";
+    let mut v = vec![];
+    let progs: Vec<&str> = if th {
+        vec!["EE.EE", "E.E.E", "EF.EE", "EE.F.E", "EFE.EF", "EEF.EEF", "EE.EE.F", "EF.EF.EF", "EEE.EE", "FE.EF"]
+    } else {
+        vec!["EE.EE", "E.E.E", "EF.EE", "EE.F.E", "EFE.EF", "E.F", "EF.EF"]
+    };
+    for prog in &progs {
+        for (via, caps) in [("sink", [3usize, 6, 7]), ("client", [7, 14, 15])] {
+            for cap in caps {
+                v.push(format!("mutex:sink=spy:via={}:cap={}:prog={}", via, cap, prog));
+            }
+        }
+        v.push(format!("mutex:sink=unix:via=sink:cap=6:prog={}", prog));
+    }
+    // a bounded spy channel refuses writes until the harness drains it
+    for prog in ["EEF", "EEF.EF", "EEFR.EF", "EEF.R.EF", "EEFF.REF", "EEEF.F"] {
+        for cap in [3, 6] {
+            v.push(format!("mutex:sink=spy:q=1:via=sink:cap={}:prog={}", cap, prog));
+        }
+    }
+    v
+}
+
+fn c13(tier: &str) -> Vec<String> {
+    let th = tier == "thorough";
+    let mut v = vec!["sock-unbuf:sink=udp".to_string(), "sock-unbuf:sink=udp6".into(), "sock-unbuf:sink=unix".into()];
+    for sink in ["udp", "unix"] {
+        for cap in ["8", "16", "1432"] {
+            v.push(format!("sock-buf:sink={}:cap={}:depth={}", sink, cap, if th { 4 } else { 3 }));
+        }
+        // the default constructor: capacity must be 512
+        v.push(format!("sock-buf:sink={}:depth={}", sink, if th { 4 } else { 3 }));
+    }
+    v.push(format!("sock-buf:sink=unix:cap=16:faults=1:depth={}", if th { 5 } else { 4 }));
+    v.push(format!("sock-buf:sink=unix:cap=8:faults=1:depth={}", if th { 5 } else { 4 }));
+    v
+}
+
+fn c14(tier: &str) -> Vec<String> {
+    let th = tier == "thorough";
+    let mut v = vec!["sock-unbuf:sink=udp".to_string(), "sock-unbuf:sink=udp6".into(), "sock-unbuf:sink=unix".into()];
+    for sink in ["unix", "unix-buf", "udp", "udp-buf"] {
+        v.push(format!("sock-faults:sink={}:depth={}", sink, if th { 6 } else { 5 }));
+    }
+    v.push("sock-buf:sink=udp:cap=16:depth=3".into());
+    v.push("sock-buf:sink=unix:cap=16:faults=1:depth=4".into());
+    let progs: Vec<&str> = if th { vec!["oo.oo", "oe.eo", "o.o.o", "oe.o.e", "ooo.oo", "oe.oe.oe", "oo.oo.o"] } else { vec!["oo.oo", "oe.eo", "o.o.o", "oe.o.e"] };
+    for prog in progs {
+        for mode in ["raw", "unix", "udp"] {
+            let threads = prog.split('.').count();
+            let ops = prog.len() - threads + 1;
+            let p = if threads >= 3 && ops >= 5 { ":P=3" } else { "" };
+            v.push(format!("stats:mode={}:prog={}{}", mode, prog, p));
+        }
+    }
+    v
+}
+
 fn c04(tier: &str) -> Vec<String> {
     (0..24).map(|row| format!("fmt04:row={}:tier={}", row, tier)).collect()
 }
@@ -352,6 +412,9 @@ pub fn instances(prop: &str, tier: &str) -> Vec<String> {
         "C02" => c02(tier),
         "C03" => c03(tier),
         "C04" => c04(tier),
+        "C12" => c12(tier),
+        "C13" => c13(tier),
+        "C14" => c14(tier),
         "C08" => q(c08(tier)),
         "C09" => q(c09(tier)),
         "C10" => q(c10(tier)),
